@@ -128,6 +128,13 @@ func c42Gen(rng *rand.Rand, p c42Params) *c42Case {
 		pOdd = 8
 		c.label = "odd-nodes"
 	}
+	// otherwise healthy trees with dir nodes whose subtree is nil or the null id (both skipped
+	// by the traversal, not errors for FindUsedBlobs)
+	pNull := 0
+	if !p.forCheck && profile < 6 && rng.Intn(4) == 0 {
+		pNull = 5
+		c.label = "healthy-null-subtrees"
+	}
 	n := 1 + rng.Intn(p.maxTrees)
 	if rng.Intn(8) == 0 {
 		n = 1 + rng.Intn(3)
@@ -191,7 +198,7 @@ func c42Gen(rng *rand.Rand, p c42Params) *c42Case {
 				if nd.kind == "dir" {
 					node.Subtree = &sub
 					nd.subtree = &sub
-					if pOdd > 0 && rng.Intn(pOdd) == 0 {
+					if (pOdd > 0 && rng.Intn(pOdd) == 0) || (pNull > 0 && rng.Intn(pNull) == 0) {
 						if rng.Intn(2) == 0 {
 							node.Subtree, nd.subtree = nil, nil
 						} else {
